@@ -49,6 +49,8 @@ def gen_cases(prop, tier, rng):
         progs = []
         if fam == 0:      # same string, copy/static mix
             s = S("a", rng.choice([0, 1, 2, 3]))
+            if i % 32 == 0:   # a long string: size-dependent paths (block larger than the default, out-of-lock copies)
+                s = S("a", rng.choice([4095, 4096, 4097, 6000])); cap = rng.choice([16, 4096, 8192])
             for t in range(nt):
                 progs.append([rng.choice(["I:", "I:", "IS:"]) + hx(s)] + ([f"G:{hx(s)}"] if rng.random() < 0.5 else []))
         elif fam == 1:    # different strings, same shard (same first byte), same bucket
@@ -92,6 +94,7 @@ def gen_cases(prop, tier, rng):
         ("spur", 1, "4",   [[f"I:{hx(S('a', 2))}"], [f"I:{hx(S('b', 2))}"]]),            # the budget step (F2)
         ("spur", 8, "max", [[f"I:{hx(S('a', 2))}"], [f"I:{hx(S('a', 2))}", f"G:{hx(S('a', 2))}", "R:0"]]),   # same string
         ("spur", 8, "max", [[f"IS:{hx(S('a', 2))}"], [f"IS:{hx(S('a', 2))}", "R:0"]]),   # static / static, equal content
+        ("spur", 4096, "max", [[f"I:{hx(S('a', 4100))}"], [f"I:{hx(S('a', 4100))}", "R:0"]]),   # same LONG string (>= 4 KiB)
         ("cap1", 8, "max", [[f"I:{hx(S('a', 2))}"], [f"IS:{hx(S('b', 2))}", "R:0"]]),    # the last key
         ("spur", 8, "max", [[f"I:{hx(S('a', 2))}", f"I:{hx(S('a', 2, 5))}"], [f"G:{hx(S('a', 2))}", "R:0", f"G:{hx(S('a', 2, 5))}"]]),  # reader vs writer, same shard
     ]
